@@ -78,3 +78,62 @@ fn k2_future_array_drop_exactly_one() {
     drop(fa);
     assert!(c0.get() + c1.get() == 1);
 }
+
+// ---- Vec-backed leaves (alloc) ----
+use crate::utils::{FutureVec, OutputVec};
+
+/// OutputVec keeps its slots in the spare capacity of an empty Vec: write(i, v) then take() returns every value at
+/// its own index (the clause units/output_vec.vx proves over the SpareVec model; here on the real memory).
+#[kani::proof]
+#[kani::unwind(5)]
+fn k2_output_vec_write_take_positional() {
+    let a: u8 = kani::any();
+    let b: u8 = kani::any();
+    let mut out: OutputVec<u8> = OutputVec::uninit(2);
+    if kani::any() {
+        out.write(0, a);
+        out.write(1, b);
+    } else {
+        out.write(1, b);
+        out.write(0, a);
+    }
+    let got = unsafe { out.take() };
+    assert!(got.len() == 2 && got[0] == a && got[1] == b);
+}
+
+/// OutputVec with an owning payload: write / drop(i) / take neither double free nor touch freed memory.
+#[kani::proof]
+#[kani::unwind(5)]
+fn k2_output_vec_box_drop_once() {
+    extern crate alloc;
+    use alloc::boxed::Box;
+    let mut out: OutputVec<Box<u8>> = OutputVec::uninit(2);
+    let x: u8 = kani::any();
+    out.write(1, Box::new(x));
+    if kani::any() {
+        out.write(0, Box::new(3));
+        let got = unsafe { out.take() };
+        assert!(*got[0] == 3 && *got[1] == x);
+    } else {
+        unsafe { out.drop(1) };
+    }
+}
+
+/// FutureVec::new moves every element in unchanged and drops nothing; drop(idx) drops exactly element idx.
+#[kani::proof]
+#[kani::unwind(5)]
+fn k2_future_vec_drop_exactly_one() {
+    extern crate alloc;
+    let c0 = core::cell::Cell::new(0u8);
+    let c1 = core::cell::Cell::new(0u8);
+    let mut v = alloc::vec::Vec::new();
+    v.push(Counted(&c0));
+    v.push(Counted(&c1));
+    let mut fv = FutureVec::new(v);
+    assert!(c0.get() == 0 && c1.get() == 0);
+    let idx: usize = kani::any();
+    kani::assume(idx < 2);
+    unsafe { Pin::new_unchecked(&mut fv).drop(idx) };
+    assert!(c0.get() == if idx == 0 { 1 } else { 0 });
+    assert!(c1.get() == if idx == 1 { 1 } else { 0 });
+}
